@@ -110,7 +110,9 @@ def execStep (st : ExecDrvSt) (op : String) (a : KV) : ExecDrvSt × String :=
     let bare := a.str "variant" "" == "cwdfile" && ((a.str "path" "").splitOn "/").length == 1
     let stt : Stat := if (viaLink && a.str "variant" "bad" == "bad") || bare then { uid := 1000, gid := 1000, mode := 0o777 }
                           else { uid := 0, gid := 0, mode := 0o755 }
-    let o := safeCmdExecution .resolved (.ok stt) (.exits 0 "7\n") 2000
+    -- variant=blank: a root-owned script without an interpreter line (the start fails: exec format error), nothing runs
+    let beh : Beh := if a.str "variant" "" == "blank" then .startError else .exits 0 "7\n"
+    let o := safeCmdExecution .resolved (.ok stt) beh 2000
     (exCount st o.ran, s!"run={exFmtRun o.res} good={exB01 o.ran} bad=0")
   | "ex.busy" =>
     -- the file passes the check, the start fails (text file busy): an error, nothing executed; what happens to the
